@@ -305,30 +305,20 @@ bool scoped_fd::is_open() {
 string read_all(int fd) {
   static const ssize_t read_size = 16 * 1024;
 
-  size_t total_size = 0;
-  vector<string> buffers;
+  // A read that returns fewer bytes than requested does not mean end of file
+  // (pipes, sockets and terminals deliver whatever is available), so keep
+  // reading until read() reports EOF by returning zero.
+  string ret;
+  string buffer(read_size, 0);
   for (;;) {
-    buffers.emplace_back(read_size, 0);
-    ssize_t bytes_read = ::read(fd, buffers.back().data(), read_size);
+    ssize_t bytes_read = ::read(fd, buffer.data(), read_size);
     if (bytes_read < 0) {
       throw io_error(fd);
     }
-
-    total_size += bytes_read;
-    if (bytes_read < read_size) {
-      buffers.back().resize(bytes_read);
+    if (bytes_read == 0) {
       break;
     }
-  }
-
-  if (buffers.size() == 1) {
-    return buffers.back();
-  }
-
-  string ret;
-  ret.reserve(total_size);
-  for (const string& buffer : buffers) {
-    ret += buffer;
+    ret.append(buffer.data(), bytes_read);
   }
 
   return ret;
